@@ -81,12 +81,14 @@ def connect_body(k, world):
         n0 = d0.c['len']
         isnew = lambda q: z3.And(q >= n0, q < d1.c['len'])
         same = [d1.c[nm][j] == d0.c[nm][j] for nm in d0.c if nm != 'len']
-        return z3.And(
-            d1.c['len'] >= n0, z3.ForAll([j], z3.Implies(z3.And(j >= 0, j < n0), z3.And(*same))),
-            z3.ForAll([j], z3.Implies(isnew(j), z3.And(d1.c['event'][j] == CONNECT_ERROR, d1.c['args#len'][j] == 1,
-                                                       z3.Exists([p], z3.And(p >= 0, p < upto, smt.vseq(L1)[p] == d1.c['ns'][j])))), patterns=[d1.c['event'][j]]),
-            z3.ForAll([p], z3.Implies(z3.And(p >= 0, p < upto, c13.target_exists(st0, 'client', smt.vseq(L1)[p], CONNECT_ERROR, NAMES)),
-                                      z3.Exists([j], z3.And(isnew(j), d1.c['event'][j] == CONNECT_ERROR, d1.c['ns'][j] == smt.vseq(L1)[p])))))
+        return {
+            'earlier-dispatches-kept': z3.And(d1.c['len'] >= n0, z3.ForAll([j], z3.Implies(z3.And(j >= 0, j < n0), z3.And(*same)))),
+            'only-connect_error-notifications-for-requested-namespaces': z3.ForAll([j], z3.Implies(isnew(j), z3.And(
+                d1.c['event'][j] == CONNECT_ERROR, d1.c['args#len'][j] == 1,
+                z3.Exists([p], z3.And(p >= 0, p < upto, smt.vseq(L1)[p] == d1.c['ns'][j])))), patterns=[d1.c['event'][j]]),
+            'one-for-every-requested-namespace-that-has-a-handler-for-it': z3.ForAll([p], z3.Implies(
+                z3.And(p >= 0, p < upto, c13.target_exists(st0, 'client', smt.vseq(L1)[p], CONNECT_ERROR, NAMES)),
+                z3.Exists([j], z3.And(isnew(j), d1.c['event'][j] == CONNECT_ERROR, d1.c['ns'][j] == smt.vseq(L1)[p]))))}
 
     def recorded(c):
         d = {}
@@ -104,7 +106,8 @@ def connect_body(k, world):
     def transport_fails(c):
         d = recorded(c)
         L1 = c.post.get(*CNS).leaf()
-        d['refusal-reported-to-the-connect_error-handler-of-every-requested-namespace'] = reported(c.pre, c.post, L1, smt.vlen(L1))
+        for k_, v_ in reported(c.pre, c.post, L1, smt.vlen(L1)).items():
+            d['refusal-reported.' + k_] = v_
         d['fully-disconnected'] = z3.And(z3.Not(connected(c.post)), nss(c.post).c['dom'] == z3.K(V, z3.BoolVal(False)))
         d['nothing-sent'] = sv_equiv(c.post.get(*OUT), c.pre.get(*OUT))
         return d
@@ -135,7 +138,7 @@ def connect_body(k, world):
 
     def inv_report(lc):
         L1 = lc.cur.get(*CNS).leaf()
-        return {'reported-so-far': reported(lc.entry, lc.cur, L1, lc.i),
+        return {**{'reported.' + k_: v_ for k_, v_ in reported(lc.entry, lc.cur, L1, lc.i).items()},
                 'namespace-table-still-empty': nss(lc.cur).c['dom'] == z3.K(V, z3.BoolVal(False)),
                 'nothing-sent': sv_equiv(lc.cur.get(*OUT), lc.entry.get(*OUT))}
 
@@ -150,7 +153,7 @@ def connect_body(k, world):
         'dom.namespaces-given-as-a-string-or-a-list': z3.Or(smt.kind(c.a.namespaces) == smt.K_STR, smt.kind(c.a.namespaces) == smt.K_LIST),
         'dom.no-retry': z3.Not(smt.truthy(c.a.retry)),
         'dom.no-star-namespace': z3.Not(requested(c, c13.STAR)),
-        'no-star-namespace-connected': z3.Not(nss(c.pre).c['dom'][c13.STAR]), 'namespaces-truthy': z3.Not(nss(c.pre).c['dom'][NONE])})
+        'dom.no-star-namespace-connected': z3.Not(nss(c.pre).c['dom'][c13.STAR]), 'dom.namespaces-truthy': z3.Not(nss(c.pre).c['dom'][NONE])})
     k.cases = [
         Case('already-connected', when=lambda c: connected(c.pre), kind='raise', exc='sio.ConnectionError', update=lambda c: None),
         Case('accepted', when=notc, post=accepted),
